@@ -188,7 +188,10 @@ def check_transform(c):
 @evaluator("match-spec")
 def check_match_spec(c):
     _, _, uc = cc.lib()
-    got = uc.xpath_match(c["xpath"], cc.py_patarg(c["pats"]))
+    r = core.call(uc.xpath_match, c["xpath"], cc.py_patarg(c["pats"]))
+    if r[0] == "err":  # (genxm) xpath_match raises nothing on str / sequence-of-str arguments (C10_generated_xpath_match_eq)
+        return {"xpath_match_raised": r[1]}
+    got = r[1]
     pats = [c["pats"]] if isinstance(c["pats"], str) else list(c["pats"])
     want = 0
     for i, p in enumerate(pats):
@@ -390,23 +393,24 @@ def run(ctx):
         "cmp.match",
         mcases,
         lambda c: "cmp.match %s %s" % (enc_str(c["xpath"]), cc.enc_patarg(c["pats"])),
-        lambda c: "ok %d" % uc.xpath_match(c["xpath"], cc.py_patarg(c["pats"])),
+        match_impl,  # (genxm) the exception class if the function raises: a raising xpath_match is a disagreement, not a crash of the check
     )
     ctx.evaluate("match-spec", mcases, check_match_spec)
     # ---- the definition translated from the source (Gen/XPathMatch.lean) against the running function, on the cases above
     # and on texts built for the matcher (names, `*`, `//`, empty parts, mixed case, str and tuple forms, the empty list)
     rng = ctx.rng("xmgen")
-    xcases = mcases[: len(mcases) // 2] + [gen_xm_case(rng) for _ in range(n)]
-    hit = lambda c: uc.xpath_match(c["xpath"], cc.py_patarg(c["pats"])) != 0
+    nm = len(mcases) // 3
+    xcases = mcases[:nm] + [gen_xm_case(rng) for _ in range(n // 2)]
+    hit = lambda c: match_impl(c) != "ok 0" and match_impl(c).startswith("ok ")
     ctx.correspond("xmgen.match", xcases, lambda c: "xmgen.match %s %s" % (enc_str(c["xpath"]), cc.enc_patarg(c["pats"])), match_impl, nontrivial=hit)
-    ctx.correspond("cmp.match/texts", xcases[len(mcases) // 2:], lambda c: "cmp.match %s %s" % (enc_str(c["xpath"]), cc.enc_patarg(c["pats"])), match_impl, nontrivial=hit)
-    ctx.evaluate("match-spec/texts", xcases[len(mcases) // 2:], check_match_spec, nontrivial=hit)
+    ctx.correspond("cmp.match/texts", xcases[nm:], lambda c: "cmp.match %s %s" % (enc_str(c["xpath"]), cc.enc_patarg(c["pats"])), match_impl, nontrivial=hit)
+    ctx.evaluate("match-spec/texts", xcases[nm:], check_match_spec, nontrivial=hit)
     ctx.extra["xmgen_distribution"] = {
         "cases": len(xcases), "matched": sum(1 for c in xcases if hit(c)), "str_form": sum(1 for c in xcases if isinstance(c["pats"], str)),
         "empty_list": sum(1 for c in xcases if c["pats"] == []), "with_star": sum(1 for c in xcases if "*" in str(c["pats"])),
         "with_empty_part": sum(1 for c in xcases if "//" in str(c["pats"]) or str(c["pats"]).startswith("/")),
     }
-    ctx.extra["match_hits"] = sum(1 for c in mcases if uc.xpath_match(c["xpath"], cc.py_patarg(c["pats"])))
+    ctx.extra["match_hits"] = sum(1 for c in mcases if match_impl(c) not in ("ok 0",) and match_impl(c).startswith("ok "))
     # ---- generate_composite_keys with transforms
     rng = ctx.rng("keys")
     kcases = []
